@@ -1,4 +1,5 @@
 import Pocket.Lemmas.StoreCover
+import Pocket.Lemmas.AddrRT
 /-
 C11 — accepted deletions are permanent and deletion times never move backwards.
 -/
@@ -201,5 +202,14 @@ theorem accepted_marks_addresses (c : List SEv) (req : EventRec) (tags : TagsRec
       · exact ih _ h hin
     · cases h
     · cases h
+
+/-- the address text `kind:pubkey-hex:d` of an `a` tag denotes exactly that address (any `d`, colons
+included), so an accepted request that names an address in this form marks *that* address -/
+theorem address_text_marked (c : List SEv) (req : EventRec) (tags : TagsRec) (st st' : DelSt)
+    (h : handleDeletion c req tags st = .ok st') (hu : Uniq c) (rest : List Bytes)
+    (k : Nat) (pk d : Bytes) (hk : k < 65536) (hpk : pk.length = 32) (hb : ∀ b ∈ pk, b < 256)
+    (htag : (KEY_A :: (decOf k ++ 58 :: (hexOf pk ++ 58 :: d)) :: rest) ∈ tags) :
+    ∃ t, req.createdAt ≤ t ∧ delAddrGet st'.delAddrs (k, pk, normD k d) = some t :=
+  accepted_marks_addresses c req tags st st' h hu _ rest k pk d htag (parseAddr_text k pk d hk hpk hb)
 
 end Pocket.C11
